@@ -26,6 +26,7 @@ of class `arg`, so laziness is not observable at the level of classes.
 -/
 import ClvmModel.Tree
 import ClvmModel.Hash.Sha256
+import ClvmModel.Py.Casts
 
 namespace Clvm.Ref
 open Clvm
@@ -121,41 +122,20 @@ def SUBSTR_COST : Nat := 1
 /-- `eval_op`: `return 1` after pushing the operands (a literal in `run_program.py`) -/
 def EVAL_OPERANDS_COST : Nat := 1
 
-/-! ### casts.py -/
+/-! ### casts.py
+
+`clvm/casts.py` is the file the wheel ships as `clvm_rs/casts.py`; its Lean transcription (one
+definition per Python function: `int.bit_length`, `int.from_bytes`, `int.to_bytes`, the stripping
+loop, `int_from_bytes`, `int_to_bytes`) is `ClvmModel/Py/Casts.lean` and is used here as it is. -/
 
 /-- `int.from_bytes(blob, "big", signed=False)` -/
-def unsignedFromBytes (blob : Bytes) : Nat := blob.foldl (fun a x => a * 256 + x.toNat) 0
-
-/-- `int_from_bytes`: `0` for the empty string, otherwise `int.from_bytes(blob, "big", signed=True)` -/
-def intFromBytes (blob : Bytes) : Int :=
-  match blob with
-  | [] => 0
-  | x :: _ =>
-    if x.toNat ≥ 0x80 then (unsignedFromBytes blob : Int) - (256 : Int) ^ blob.length
-    else (unsignedFromBytes blob : Int)
-
-/-- `int.bit_length()` of the absolute value -/
-def bitLength (v : Int) : Nat := if v = 0 then 0 else Nat.log2 v.natAbs + 1
-
-/-- `n.to_bytes(k, "big")` for `0 ≤ n < 256^k` -/
-def toBytesBE : Nat → Nat → Bytes
-  | 0, _ => []
-  | k + 1, n => UInt8.ofNat (n / 256 ^ k % 256) :: toBytesBE k n
-
-/-- `v.to_bytes(k, "big", signed=True)` (the caller makes `k` large enough) -/
-def toBytesSigned (v : Int) (k : Nat) : Bytes := toBytesBE k (v % (256 : Int) ^ k).toNat
-
-/-- `while len(r) > 1 and r[0] == (0xFF if r[1] & 0x80 else 0): r = r[1:]` -/
-def stripRedundant : Bytes → Bytes
-  | x :: y :: rest =>
-    if x.toNat == (if y.toNat &&& 0x80 != 0 then 0xFF else 0) then stripRedundant (y :: rest)
-    else x :: y :: rest
-  | r => r
-
+abbrev unsignedFromBytes (blob : Bytes) : Nat := Py.Casts.fromBytesUnsigned blob
+/-- `int_from_bytes` -/
+abbrev intFromBytes (blob : Bytes) : Int := Py.Casts.intFromBytes blob
 /-- `int_to_bytes` -/
-def intToBytes (v : Int) : Bytes :=
-  let byteCount := (bitLength v + 8) >>> 3
-  if v = 0 then [] else stripRedundant (toBytesSigned v byteCount)
+abbrev intToBytes (v : Int) : Bytes := Py.Casts.intToBytes v
+/-- `int.bit_length()` -/
+abbrev bitLength (v : Int) : Nat := Py.Casts.bitLength v
 
 /-- `limbs_for_int`: `(v.bit_length() + 7) >> 3` -/
 def limbsForInt (v : Int) : Nat := (bitLength v + 7) >>> 3
